@@ -296,6 +296,7 @@ struct Res {
     ref_why: String,
     vio: Option<(String, String)>,
     calls: u64,
+    mon: Vec<crate::vmc::Vio>,
 }
 
 fn run_case(case: &Case) -> Res {
@@ -335,7 +336,9 @@ fn run_case(case: &Case) -> Res {
     );
     setup.funding_outpoint = OutPoint { txid: funding_tx.compute_txid(), vout: 0 };
     r.calls += 1;
+    let before = if crate::monitors::grid_monitors() { Some(w.snapshot()) } else { None };
     let so = w.setup_channel(DBID, &setup);
+    crate::monitors::around(&w, &before, &so, "setup_channel", &mut r.mon);
     if case.entry == Entry::Setup {
         match so {
             Outcome::Ok(_) => {
@@ -416,6 +419,7 @@ fn run_case(case: &Case) -> Res {
     let c = e.c.clone();
     let n = e.n;
     r.calls += 1;
+    let before = if crate::monitors::grid_monitors() { Some(ch.w.snapshot()) } else { None };
     let o: Outcome<()> = match case.entry {
         Entry::SignCp => {
             let point = ch.cp.point(n);
@@ -445,6 +449,7 @@ fn run_case(case: &Case) -> Res {
             }
         }
     };
+    crate::monitors::around(&ch.w, &before, &o, if case.entry == Entry::SignCp { "sign_counterparty_commitment_tx_phase2" } else { "validate_holder_commitment_tx_phase2" }, &mut r.mon);
     match o {
         Outcome::Ok(_) => {
             r.accepted = true;
@@ -495,7 +500,7 @@ fn alphabet(case: &Case) -> Vec<Dev> {
             v.push(Dev::Value(x));
         }
     }
-    for x in [1_000u64, 1_000_000, case.v.value * 1000, case.v.value * 1000 + 1000] {
+    for x in [1_000u64, 1_000_000, case.v.value.saturating_mul(1000), case.v.value.saturating_mul(1000).saturating_add(1000)] {
         if x != case.v.push_msat {
             v.push(Dev::Push(x));
         }
@@ -652,6 +657,35 @@ fn bases(tier: Tier) -> Vec<Case> {
         }
     }
     v
+}
+
+/// the quick-tier cases with the C10 / C11 monitors around every request
+pub fn monitored(wall_s: f64) -> (u64, Vec<(crate::vmc::Vio, Value)>) {
+    let t0 = std::time::Instant::now();
+    let bs = bases(Tier::Quick);
+    let mut cases = bs.clone();
+    for b in &bs {
+        for d in alphabet(b) {
+            let mut c = b.clone();
+            c.devs = vec![d];
+            cases.push(c);
+        }
+    }
+    let mut out = vec![];
+    let mut n = 0u64;
+    for chunk in cases.chunks(2048) {
+        if t0.elapsed().as_secs_f64() > wall_s {
+            break;
+        }
+        let rs = par_map(chunk, nthreads(), |c| run_case(c));
+        for (c, r) in chunk.iter().zip(rs.into_iter()) {
+            n += r.calls;
+            for v in r.mon {
+                out.push((v, json!({"engine": "c05", "case": c})));
+            }
+        }
+    }
+    (n, out)
 }
 
 pub fn main(tier: Tier) -> i32 {
